@@ -93,7 +93,7 @@ def gen_case(rng, family='any'):
         end = (day_of(d0) + nd) * 86400 + rng.choice([t_ for t_ in (CLOSE, OPEN, 0, 80000) if t_ >= start_tod] or [86340])
     late = None
     gaps = rng.choice([0, 0, 0, 0.1])
-    missing = rng.choice([0, 0, 0, 0.05])
+    missing = rng.choice([0, 0, 0.05, 0.1])
     uni = {'static': assets}
     alpha = None
     signals = None
